@@ -516,6 +516,8 @@ std::vector<double> GridLocalPolynomial::getCandidateConstructionPoints(double t
     // combine the initial points with negative weights and the refinement candidates with surplus weights (no need to normalize, the sort uses relative values)
     MultiIndexSet refine_candidates = getRefinementCanidates<effrule>(tolerance, criteria, output, level_limits, scale_correction);
     MultiIndexSet new_points = (dynamic_values->initial_points.empty()) ? std::move(refine_candidates) : refine_candidates - dynamic_values->initial_points;
+    // a sample that has been delivered and waits for its parents is not requested again
+    if (!dynamic_values->data.empty()) new_points = new_points - dynamic_values->getWaitingPoints(num_dimensions);
 
     // compute the weights for the new_points points
     std::vector<double> norm = getNormalization();
